@@ -180,6 +180,27 @@ func runC13(e *core.Env) {
 			minute = obs.NearMidnight(minute) // where "24 hours ago" and "yesterday" part ways
 		}
 		clock := obs.ClockAt(today, minute, 0)
+		if r.Chance(1, 5) {
+			// a period clause that names no period (week 53 of a year that has 52, week 0, month 13, quarter 5 ...) selects nothing:
+			// it is refused, whatever lies next to it in the calendar
+			y := today.Y
+			_, lastWeek := ref.ISOWeek(y, 12, 28)
+			pats := []string{fmt.Sprintf("%04d-W00", y), fmt.Sprintf("%04d-W54", y), fmt.Sprintf("%04d-13", y), fmt.Sprintf("%04d-00", y), fmt.Sprintf("%04d-Q5", y), fmt.Sprintf("%04d-Q0", y)}
+			if lastWeek == 52 {
+				pats = append(pats, fmt.Sprintf("%04d-W53", y))
+			}
+			pat := pats[r.Intn(len(pats))]
+			e.Begin(total*6+i, []byte("period "+pat+"\n"+d.Text))
+			res := obs.RunCLI(obs.CLIEnv{ConfigDir: e.Dir + "/cfg", Cpus: 1, Theme: "no_colour", Clock: clock}, "print", "--no-style", "--period", pat, f)
+			if res.Panic != nil {
+				e.Violation("period-clause-panic: "+res.Panic.Site(), fmt.Sprintf("klog print --period %s panicked: %s", pat, res.Panic.Value), map[string]any{"text": d.Text})
+			} else if res.Code == 0 {
+				e.Violation("impossible-period-accepted", fmt.Sprintf("`klog print --period %s` succeeded although no such period exists (year %04d has %d ISO weeks); it printed:\n%s", pat, y, lastWeek, trunc(res.Out, 400)), map[string]any{"text": d.Text})
+			} else {
+				e.Count("impossible_period_clauses_refused", 1)
+			}
+			e.End(total*6 + i)
+		}
 		for qi := 0; qi < 6; qi++ {
 			q := c13GenQuery(r, d.Doc, today)
 			if q.Shortcut != "" && !shortcutRepresentable(q.Shortcut, today) {
